@@ -47,7 +47,7 @@ def random_value(rng, name, cur):
         # single precision, generated as f0*r**k) must come back element by element
         g = np.geomspace(0.2, 20, 7)
         fc = [g, [0.5, 1.0, 2.0], (1.0, 3.0, 9.0), np.round(np.geomspace(0.3, 25, 9), 6), np.geomspace(0.2, 20, 8).astype(np.float32).astype(float),
-              0.4 * 1.37 ** np.arange(8)][int(rng.integers(0, 6))]
+              0.4 * 1.37 ** np.arange(8), np.array([2.5]), [4.0]][int(rng.integers(0, 8))]          # (one centre frequency: still a sequence)
         return dict(operator=str(rng.choice(["konno_and_ohmachi", "parzen", "log_rectangular"])), bandwidth=float(rng.choice([40., 0.5, 0.1])), center_frequencies_in_hz=fc)
     if name == "handle_dissimilar_time_steps_by":
         return str(rng.choice(["frequency_domain_resampling", "keeping_smallest_time_step", "keeping_majority_time_step"]))
@@ -56,7 +56,8 @@ def random_value(rng, name, cur):
     if name == "azimuths_in_degrees":
         # any order, repeated values allowed: each entry only has to lie in [0, 180]
         return [np.arange(0, 180, 30.), [0., 45., 90.], (10., 100.), np.array([5, 50, 95]), np.array([22.5, 67.5, 112.5]), [0.5, 45.25],
-                [0., 90., 45., 135.], np.array([120., 60., 0.]), [0., 60., 120., 60.], (170., 10.)][int(rng.integers(0, 10))]
+                [0., 90., 45., 135.], np.array([120., 60., 0.]), [0., 60., 120., 60.], (170., 10.),
+                np.array([37.5]), [90.]][int(rng.integers(0, 12))]        # (a single azimuth is a sequence of length one, not a number)
     if name == "ppth_percentile_for_rotdpp_computation":
         return [0., 50., 84., 100., np.int64(50), np.float64(84.)][int(rng.integers(0, 6))]
     if name == "instrument_transfer_function":
